@@ -234,8 +234,8 @@ def run(ctx):
                         'grid points within 1e-6 of sigma that are not bitwise <= sigma are not judged here (C10)',
                         'solved objects: unconverged solves skipped and counted']
     # half grid spacings: equal sizes; an off-grid cross contact; a small sphere (an explicit potential sigma below the first grid point) next to a ten times larger one;
-    # (thorough) a diameter beyond the end of the grid
-    diam = [(16, 16), (8, 10), (4, 40)] if not thorough else [(16, 16), (16, 24), (8, 10), (12, 20), (4, 40), (4, 140)]
+    # larger one whose own contact distance lies beyond the end of the grid
+    diam = [(16, 16), (8, 10), (4, 140)] if not thorough else [(16, 16), (16, 24), (8, 10), (12, 20), (4, 40), (4, 140)]
     kts = [1] if not thorough else [1, 2]
     stride = 127 if not thorough else 47
     psigs = ['default', 'smaller'] if not thorough else ['default', 'smaller', 'larger']
